@@ -232,7 +232,14 @@ class LowLevel:
 
         data = self.buf.getvalue()
         self.w.fp = None
-        return iter(RecordStreamReader(io.BytesIO(data)))
+        # read in TWO passes over the same reader object (take one record, then iterate again for the rest -- islice() then
+        # list(), two consumers of one reader): the definitions seen during the first pass still count in the second
+        rd = RecordStreamReader(io.BytesIO(data))
+        first = []
+        for r in rd:
+            first.append(r)
+            break
+        return iter(first + list(rd))
 
 
 class PathBased:
